@@ -10,7 +10,7 @@ namespace {
 using namespace vf;
 
 struct Plan { int synSeeds; int mutPerSample; int apiModels; int edited; };
-Plan plan() { return g_cfg.tier ? Plan{6, 4, 200, 3000} : Plan{1, 1, 48, 300}; }
+Plan plan() { return g_cfg.tier ? Plan{6, 4, 200, 3000} : Plan{1, 1, 96, 900}; }
 struct Layout { size_t nReal, nMut, nSyn, nApi, nWit, nEdit; size_t total() const { return nReal + nMut + nSyn + nApi + nWit + nEdit; } };
 const std::vector<Sample>& witnesses() {
 	static std::vector<Sample> w;
